@@ -10,6 +10,7 @@ import (
 	"go/parser"
 	"go/token"
 	"os"
+	osexec "os/exec"
 	"path/filepath"
 	"regexp"
 	"sort"
@@ -50,6 +51,16 @@ type overlaySet struct {
 	pkgName string
 	harnessNames []string
 	seamsApplied []string
+	depFiles     bool // some file is overlaid into a dependency module: the go command's module index must be off
+}
+
+// goEnv is the environment of every go command run on behalf of an overlay.
+func (ov *overlaySet) goEnv(extra ...string) []string {
+	env := append(os.Environ(), "GOFLAGS=-mod=mod", "GOPROXY=off", "GOSUMDB=off", "GOTOOLCHAIN=local")
+	if ov != nil && ov.depFiles {
+		env = append(env, "GODEBUG=goindex=0")
+	}
+	return append(env, extra...)
 }
 
 func packageNameOf(dir string) (string, error) {
@@ -71,6 +82,22 @@ func packageNameOf(dir string) (string, error) {
 	return "", fmt.Errorf("no go files in %s", dir)
 }
 
+// depPkgDir resolves the source directory of a dependency package (module cache).
+func depPkgDir(importPath string) (string, error) {
+	cmd := osexec.Command("go", "list", "-f", "{{.Dir}}", importPath)
+	cmd.Dir = repoDir
+	cmd.Env = append(os.Environ(), "GOFLAGS=-mod=mod", "GOPROXY=off", "GOSUMDB=off", "GOTOOLCHAIN=local")
+	out, err := cmd.Output()
+	if err != nil {
+		return "", fmt.Errorf("go list %s: %v", importPath, err)
+	}
+	d := strings.TrimSpace(string(out))
+	if d == "" {
+		return "", fmt.Errorf("go list %s: no directory", importPath)
+	}
+	return d, nil
+}
+
 var harnessFuncRe = regexp.MustCompile(`(?m)^func (VerifH_[A-Za-z0-9_]+)\(\)`)
 
 func buildOverlay(spec *HarnessSpec, verifDir string) (*overlaySet, error) {
@@ -86,7 +113,17 @@ func buildOverlay(spec *HarnessSpec, verifDir string) (*overlaySet, error) {
 		// into another package of /repo
 		tdir, tname, primary := dir, pkgName, true
 		if i := strings.Index(f, "::"); i >= 0 {
-			tdir = filepath.Join(repoDir, f[:i])
+			if strings.HasPrefix(f[:i], "@") {
+				// "@import/path::file": a package of a dependency module (resolved by go list)
+				d, err := depPkgDir(f[1:i])
+				if err != nil {
+					return nil, err
+				}
+				tdir = d
+				ov.depFiles = true
+			} else {
+				tdir = filepath.Join(repoDir, f[:i])
+			}
 			f = f[i+2:]
 			primary = false
 			if tname, err = packageNameOf(tdir); err != nil {
@@ -252,7 +289,7 @@ func loadProgram(spec *HarnessSpec, verifDir string) (*loaded, error) {
 		Mode:    packages.LoadAllSyntax,
 		Dir:     repoDir,
 		Overlay: ov.files,
-		Env:     append(os.Environ(), "GOFLAGS=-mod=mod", "GOPROXY=off", "GOSUMDB=off", "GOTOOLCHAIN=local"),
+		Env:     ov.goEnv(),
 	}
 	pkgs, err := packages.Load(cfg, "./"+spec.Pkg)
 	if err != nil {
